@@ -16,6 +16,10 @@ CHECKS = {
              text="TLC checks all C05 clauses (instances 0..k, loop-carried inputs from i-1 without stage drift, outside references to the numerically highest iteration, aggregate order, condition of iteration k) for 173 document shapes up to 12 (thorough 21) iterations; the binding unrolls each shape on a real instance and compares wiring, placeholders, resolve() of :ref/:output/:loopref/:loopoutput, producers and loop state with the spec after every call.",
              note="Trusted: TLC. Looped instances are not executed (the harness writes their stdout); edges into outside consumers are only bounded; quick unrolls part of the shapes 3 times only; at most 2 looped components, no nested loops.",
              ref="4/C05"),
+ "C06": dict(engine="Dsl", technique="TLC exhaustive on an executable function specification (spec/Dsl.tla: recursive instantiation with parameter environments, Flatten / Rejected) over a bounded namespace family; every state replayed on the real namespace_to_flowir and matched by bijection search",
+             text="For every namespace of the family (depth <= 3, template reuse, forwarded/defaulted/overridden/embedded parameters, references in all spellings crossing levels, colliding step names, 22 single-fault mutations) the compiled FlowIR must have one uniquely named component per reachable component step whose arguments, references and graph edges equal the specified ones and which validates; invalid namespaces must raise DSLInvalidError covering the specified locations (a hang is cut by a CPU timer and reported).",
+             note="Trusted: TLC. Component names are free (only uniqueness/consistency required); the family is bounded (4 component templates, methods ref/output, <= 2 instances of a workflow template per level); environments, key outputs, replicate/aggregate are not varied.",
+             ref="4/C06"),
  "C07": dict(engine="InstanceStore", technique="TLC model checking of spec/InstanceStore.tla (Create/Iterate/Patch/Store/Load histories over 24 package shapes); one real execution per abstract transition along a shortest history with the full projection compared at every Load",
              text="The spec is the oracle for what must survive a store/load cycle (layered variables, platform, replica count, loop iterations, patches); the driver executes every transition TLC finds on real instance directories and additionally compares the complete real projection (nodes, dataflow, resolved and raw configuration, environments, placeholders, DoWhile state) before store and after reload, and the stored YAML before and after load+store.",
              note="Trusted: TLC. Platform passed explicitly on reload (as elaunch does); stored description compared as parsed YAML; loop iterations <= 2; transition coverage, not all paths.",
